@@ -263,9 +263,12 @@ template <class V> static void c_cheb(const typename T<V>::M &A, const caseinfo 
         return vd::scal(cld(1 / t, 0), v);
     };
     dvec zero(f.size(), cld(0, 0));
-    ld e1 = vd::nrm_inf(vd::sub(resid(s.pre), poly(resid(x)))) / std::max((ld)1, vd::nrm_inf(resid(x)));
-    ld e2 = vd::nrm_inf(vd::sub(resid(s.post), poly(resid(x)))) / std::max((ld)1, vd::nrm_inf(resid(x)));
-    ld e3 = vd::nrm_inf(vd::sub(resid(s.app), poly(resid(zero)))) / std::max((ld)1, vd::nrm_inf(resid(zero)));
+    // error of the residual polynomial relative to the larger of input and output residual (an under-estimated
+    // power-method bound makes p_k amplify the part of the spectrum above hi: the output can be large)
+    auto perr = [&](const dvec &got, const dvec &r0) { dvec want = poly(r0); dvec rg = resid(got);
+        return vd::nrm_inf(vd::sub(rg, want)) / std::max((ld)1, std::max(vd::nrm_inf(r0), vd::nrm_inf(want))); };
+    ld e1 = vd::all_finite(s.pre) ? perr(s.pre, resid(x)) : 1e30L, e2 = vd::all_finite(s.post) ? perr(s.post, resid(x)) : 1e30L;
+    ld e3 = vd::all_finite(s.app) ? perr(s.app, resid(zero)) : 1e30L;
     // bounds: Gershgorin (power_iters = 0): hi = g * higher, lo = g * lower
     ld ebnd = 0;
     if (cp.power_iters == 0) { ld g = gersh_norm(D, B, cp.scale); ld lo = g * (ld)prm.lower, hi = g * (ld)prm.higher; ebnd = std::max(std::abs(d - (hi + lo) / 2), std::abs(c - (hi - lo) / 2)) / std::max((ld)1, hi); }
@@ -391,8 +394,9 @@ template <class V> static void all_classes(const typename T<V>::M &A, const crsd
                                            bool dominant, bool p2diag, bool th, vr::rng *g) {
     c_jacobi<V>(A, ci, f, x, xs);
     c_gs<V>(A, ci, f, x, xs, true, p2diag);
-    // the level-scheduled Gauss-Seidel sweep only on structurally symmetric patterns (see docs/C06.md: known defect owned by C09)
-    if (nthreads() >= 4 && sym_pattern(pattern)) c_gs<V>(A, ci, f, x, xs, false, p2diag);
+    // the level-scheduled sweep (>= 4 threads and serial = false); since the anti-dependence repair of
+    // gauss_seidel.hpp (DESIGN 6.1, owned by C09) also on structurally non-symmetric patterns
+    if (nthreads() >= 4) c_gs<V>(A, ci, f, x, xs, false, p2diag);
     c_spai0<V>(A, ci, f, x, xs);
     if constexpr (T<V>::B == 1) c_spai1<V>(A, ci, f, x, xs);
     if (!dominant) return;
